@@ -31,8 +31,8 @@ theorem defaultCores_le (cfg : Cfg) (hwf : WF cfg.t) : defaultCores cfg ≤ avai
     unfold coreInPm
     split
     · rename_i h
-      have h' := of_decide_eq_true h
-      exact h'
+      simp only [Bool.and_eq_true, decide_eq_true_eq] at h
+      exact h.2
     · exact Nat.zero_le _
 
 theorem defaultThreads_eq (cfg : Cfg) : defaultThreads cfg = avail cfg := rfl
